@@ -74,9 +74,16 @@ def generate(seed, tier):
             # characters some libraries take for line breaks are ordinary characters of a cell in every storage format
             index = rng.randrange(len(row))
             row[index] = row[index][:2] + rng.choice(["\u2028", "\u0085", "\u2029"])
+        if rng.random() < 0.08:
+            # a line break inside a cell is a character of that cell in every storage format
+            index = rng.randrange(len(row))
+            row[index] = row[index][:1] + "\n" + row[index][1:2]
         table.append(row)
+    if swarm.random() < 0.15:
+        # the characters a cell may consist of are the same however the cell is stored
+        spec["props"] = [["allowed characters", "32%s126" % spec["sep"]]]
     return {"cid": spec, "table": table, "ios": [simfs.IoConfig.draw(swarm) for _ in range(3)],
-            "ods_features": sorted(swarm.sample(["colruns", "rowruns", "stored", "colstyle", "spans", "annotations", "embedded-object", "links", "row-groups", "header-rows", "covered-cells", "no-value-type", "utf16", "latin1"],
+            "ods_features": sorted(swarm.sample(["colruns", "rowruns", "stored", "colstyle", "spans", "annotations", "embedded-object", "links", "row-groups", "header-rows", "covered-cells", "no-value-type", "utf16", "latin1", "filtered-rows", "sub-table", "dde-links"],
                                                 swarm.randint(0, 2))),
             "other_table_at_same_path_first": swarm.random() < 0.3,
             # file names are whatever the user's tools made of them: cid.ODS, cid.Xlsx
